@@ -209,10 +209,20 @@ def code_set_applies(kind, intervals, axis):
     return frozenset(i for i, g in enumerate(got) if g), got
 
 
+#: dtype in which the axis is handed to the code (set per case by prop_unit): integer axes are what np.arange gives
+AXIS_DTYPE = ["float"]
+
+
+def _axis_array(axis):
+    if AXIS_DTYPE[0] in ("int64", "int32") and all(float(v).is_integer() for v in axis):
+        return np.asarray(axis, dtype=np.int64 if AXIS_DTYPE[0] == "int64" else np.int32)
+    return np.asarray(axis, dtype=float)
+
+
 def code_set_slice(interval, axis):
     from glotaran.optimization.data_provider import DataProvider
 
-    sl = DataProvider.get_axis_slice_from_interval(_tup(interval), np.asarray(axis, dtype=float))
+    sl = DataProvider.get_axis_slice_from_interval(_tup(interval), _axis_array(axis))
     return frozenset(range(len(axis))[sl])
 
 
@@ -225,7 +235,7 @@ def code_area(intervals, axis, form):
     clps = [np.array([-1.0, float(2**i)]) for i in range(n)]
     clp_labels = labels if form == "flat" else [list(labels) for _ in range(n)]
     ivs = [_tup(i) for i in ref.as_interval_list(intervals)]
-    area = _get_area("a", clp_labels, clps, ivs, np.asarray(axis, dtype=float))
+    area = _get_area("a", clp_labels, clps, ivs, _axis_array(axis))
     out = []
     for v in np.asarray(area, dtype=float).ravel():
         e = math.log2(v) if v > 0 else -1
@@ -262,6 +272,7 @@ def _nontrivial(axis, intervals, must):
 
 
 def prop_unit(case):
+    AXIS_DTYPE[0] = case.get("axis_dtype", "float")
     axis = [float(x) for x in case["axis"]]
     intervals = case["intervals"]
     fn, kind = case["fn"], case["kind"]
@@ -345,8 +356,14 @@ def prop_mono(case):
 @st.composite
 def random_unit_cases(draw):
     n = draw(st.integers(1, 12))
-    x0 = draw(st.floats(-100, 100, allow_nan=False))
-    incs = draw(st.lists(st.one_of(st.floats(1e-3, 1.0), st.floats(1.0, 1e3), st.sampled_from([0.1, 0.5, 1.0, 2.0])), min_size=n - 1, max_size=n - 1))
+    axis_dtype = draw(st.sampled_from(["float", "float", "float", "int64", "int32"]))
+    if axis_dtype == "float":
+        x0 = draw(st.floats(-100, 100, allow_nan=False))
+        incs = draw(st.lists(st.one_of(st.floats(1e-3, 1.0), st.floats(1.0, 1e3), st.sampled_from([0.1, 0.5, 1.0, 2.0])), min_size=n - 1, max_size=n - 1))
+    else:
+        # whole-number coordinates handed over as an integer array (np.arange(600, 620), pixel numbers)
+        x0 = float(draw(st.integers(-100, 700)))
+        incs = [float(v) for v in draw(st.lists(st.sampled_from([1, 1, 1, 2, 3, 5, 10]), min_size=n - 1, max_size=n - 1))]
     axis = [x0]
     for d in incs:
         axis.append(axis[-1] + d)
@@ -386,7 +403,7 @@ def random_unit_cases(draw):
         intervals = interval()
     else:
         intervals = [interval() for _ in range(draw(st.integers(1, 3)))]
-    return {"fn": fn, "kind": kind, "form": form, "axis": axis, "intervals": intervals}
+    return {"fn": fn, "kind": kind, "form": form, "axis": axis, "intervals": intervals, "axis_dtype": axis_dtype}
 
 
 def prop_unit_random(case):
@@ -395,7 +412,9 @@ def prop_unit_random(case):
         from vlib.core import Discard
 
         raise Discard("axis not strictly increasing after rounding")
-    return prop_unit(case)
+    out = prop_unit(case)
+    out["tags"] = list(out.get("tags", [])) + [f"axis_{case.get('axis_dtype', 'float')}"]
+    return out
 
 
 # ------------------------------------------------------------------------------------------
